@@ -236,6 +236,9 @@ func Gen(t *simrt.Tape, prof string) *Scenario {
 	const st = "scen"
 	sc := &Scenario{}
 	nm := 1 + t.Choose(st, 3)
+	if prof == "c12" && t.Choose(st, 4) == 0 {
+		nm = 4 // up to four concurrent producers
+	}
 	sc.MaxTries = 1 + t.Choose(st, 4)
 	sc.Retry = []time.Duration{0, time.Second, 15 * time.Minute}[t.Choose(st, 3)]
 	sc.Scale = []float64{1, 1.25, 2}[t.Choose(st, 3)]
